@@ -253,6 +253,7 @@ class FnCheck(Check):
         ctx.membership = {}
         ctx.map_functions = {}
         ctx.module_constants = dict(getattr(self, 'module_constants', {}))
+        ctx.field_types = dict(getattr(self, 'field_types', {}))
         ctx.solver_timeout_ms = getattr(self, 'feasibility_timeout_ms', ctx.solver_timeout_ms)
         ex = Executor(ctx)
         st = State(ctx)
